@@ -87,6 +87,18 @@ pub fn entry_points<F: Family>(p: &F::Packet, t: &mut Tape, ctx: &mut Ctx) -> Ca
         Ok((out, _)) => ensure!(out == bytes, "encode_async into a sink with vectored writes under script {:?} emitted {} instead of {}", steps, hex_short(&out, 48), hex_short(&bytes, 48)),
         Err(e) => viol!("encode_async into a sink with vectored writes failed: {}", e),
     }
+    // sinks whose flush is not ready at first (TLS, a buffered writer over a slow socket): whether or not the encoder
+    // flushes, what reaches the sink is the encoding, once
+    for (fp, one_byte) in [(1u8, true), (2, false)] {
+        let mut w = ScriptedWriter::new(&steps, bytes.len() * 4 + 64);
+        w.one_byte = one_byte;
+        w.flush_pending = fp;
+        let (r, _) = sio::drive(F::encode_async(p, &mut w), bytes.len() * 6 + steps.len() + 64);
+        match r {
+            Ok(()) => ensure!(w.out == bytes, "encode_async into a sink whose flush is not ready at first (script {:?}) emitted {} ({} bytes) instead of {} ({} bytes)", steps, hex_short(&w.out, 48), w.out.len(), hex_short(&bytes, 48), bytes.len()),
+            Err(e) => viol!("encode_async into a sink whose flush is not ready at first failed: {:?}", e),
+        }
+    }
     let partial = steps.iter().any(|s| matches!(s, WStep::Accept(k) if *k < bytes.len()));
     let pending = steps.iter().any(|s| *s == WStep::Pending);
     match async_into::<F>(p, &steps, false, bytes.len()) {
